@@ -620,6 +620,67 @@ fn c15_profile(r: &mut Rng) -> Profile {
 #[derive(PartialEq, Debug)]
 struct Results(Vec<(&'static str, Outcome)>);
 
+/// C15, the connection ends while only the first k bytes of a packet have arrived, for every k:
+/// what the next connection of the session does must not depend on k (in none of the runs the
+/// packet was received, so the session is in the same state).
+fn cut_inside_packet(rng: &mut Rng, seed: u64, verbose: bool) -> CaseOut {
+    use crate::refcodec::SPacket;
+    let mut out = CaseOut::default();
+    let cfg = CaseCfg { rx: 128, tx: 512, keepalive: 0, ..CaseCfg::default() };
+    let qos = rng.below(3) as u8;
+    let pkt = match rng.below(4) {
+        0 => SPacket::PingResp,
+        1 => SPacket::PubAck { pid: 9, reason: Some(0), props: None },
+        _ => SPacket::Publish { dup: false, qos, retain: false, topic: rand_topic(rng, 6), pid: (qos > 0).then_some(5), props: if rng.chance(1, 2) { vec![crate::refcodec::Prop::PayloadFormat(0)] } else { vec![] }, payload: { let n = rng.below(12); rng.bytes(n) } },
+    };
+    let len = crate::refcodec::encode_server(&pkt).len();
+    let ends = *rng.pick(&[0u8, 1, 2]);
+    let mut sigs: Vec<(usize, String)> = Vec::new();
+    for k in 1..len {
+        let mut steps = vec![connect_with(SpMode::Force(false), AckMode::Immediate, vec![]), pub1("held", 1, 3), Step::Broker(BrokerAct::Gate { after: k, blocks: 250 }), Step::Broker(BrokerAct::Send(pkt.clone())), poll0()];
+        steps.push(match ends {
+            0 => Step::DropConn,
+            1 => Step::Io { policy: None, faults: vec![FaultPlan { at: FaultAt::Read(0), kind: FaultKind::Eof }] },
+            _ => Step::Io { policy: None, faults: vec![FaultPlan { at: FaultAt::Read(0), kind: FaultKind::Error(ErrKind::ConnectionReset) }] },
+        });
+        if ends != 0 {
+            steps.push(poll0());
+            steps.push(Step::DropConn);
+        }
+        let from = steps.len();
+        steps.push(connect_with(SpMode::Force(true), AckMode::Immediate, vec![]));
+        steps.push(pub1("next", 2, 2));
+        steps.push(poll0());
+        steps.push(poll0());
+        let (log, world) = run_script(&cfg, steps, seed);
+        let w = world.borrow();
+        out.evaluations += 1;
+        out.count("cut_points", 1);
+        let results: Vec<String> = log.ops.iter().filter(|o| o.step >= from).map(|o| format!("{}:{:?}", o.kind, o.outcome)).collect();
+        let packets: Vec<String> = w.conns.get(1).map(|c| c.out.packets.iter().map(|p| format!("{:?}", p.pkt)).collect()).unwrap_or_default();
+        let hit = w.events.iter().any(|e| matches!(e, Ev::GateHit { .. }));
+        if hit {
+            out.count("connections_cut_inside_a_packet", 1);
+            out.nontrivial.push(hash_of(&(abstract_trace(&log, &w), k, len)));
+        }
+        let sig = format!("{:?} / {:?}", results, packets);
+        if let Some((k0, first)) = sigs.first() {
+            if *first != sig {
+                out.violations.push(viol("C15", "C15/cut-point-dependence", format!("the connection ended after {} of {} bytes of {}: the next connection differs from the run cut after {} bytes: {} vs {}", k, len, trunc(&format!("{:?}", pkt), 60), k0, trunc(&sig, 300), trunc(first, 300))));
+                if verbose {
+                    for l in render(&log, &w, 400) {
+                        println!("{}", l);
+                    }
+                }
+                break;
+            }
+        }
+        sigs.push((k, sig));
+    }
+    out.key(format!("cut/{}/ends-{}", match pkt { SPacket::PingResp => "pingresp", SPacket::PubAck { .. } => "puback", _ => "publish" }, ends));
+    out
+}
+
 /// C15, keep-alive on: the inbound stream stalls inside packets for longer than the client's own
 /// keep-alive deadline, so the client itself abandons the read, sends PINGREQ and resumes.
 /// Compared with the run without stalls: delivered messages, results of all requests, and the
@@ -789,13 +850,13 @@ impl Check for C15 {
         v
     }
     fn workloads(&self) -> Vec<Workload> {
-        vec![Workload { name: "fragment-twin", quick: 900, thorough: 600_000 }, Workload { name: "exhaustive-chunkings", quick: 60, thorough: 6000 }, Workload { name: "stalls-under-keepalive", quick: 400, thorough: 600_000 }]
+        vec![Workload { name: "fragment-twin", quick: 900, thorough: 600_000 }, Workload { name: "exhaustive-chunkings", quick: 60, thorough: 6000 }, Workload { name: "stalls-under-keepalive", quick: 400, thorough: 600_000 }, Workload { name: "connection-cut-inside-a-packet", quick: 150, thorough: 30_000 }]
     }
     fn min_nontrivial(&self, tier: Tier) -> usize {
         if tier == Tier::Quick { 300 } else { 3000 }
     }
     fn required_counters(&self) -> Vec<&'static str> {
-        vec!["twins_compared", "chunkings_enumerated_exhaustively", "variants_with_split_packets", "stalls_inside_a_packet", "calls_repeated_after_a_stall", "keepalive_stall_variants", "slow_partial_writes"]
+        vec!["twins_compared", "chunkings_enumerated_exhaustively", "variants_with_split_packets", "stalls_inside_a_packet", "calls_repeated_after_a_stall", "keepalive_stall_variants", "slow_partial_writes", "connections_cut_inside_a_packet"]
     }
     fn exhaustive(&self) -> bool {
         true
@@ -805,6 +866,9 @@ impl Check for C15 {
         let mut rng = Rng::new(seed);
         if workload == 2 {
             return keepalive_stalls(&mut rng, seed, verbose);
+        }
+        if workload == 3 {
+            return cut_inside_packet(&mut rng, seed, verbose);
         }
         let profile = c15_profile(&mut rng);
         let cfg = {
